@@ -6,7 +6,7 @@ ROOT = os.path.dirname(os.path.dirname(os.path.abspath(__file__)))
 SPEC = os.path.join(ROOT, "spec")
 HARNESS = os.path.join(ROOT, "harness")
 WORK = os.path.join(ROOT, ".work")
-REPO = "/repo"
+REPO = os.environ.get("VERIF_REPO", "/repo")   # the matrix of seeded changes runs against scratch worktrees
 
 GOENV = {"GOFLAGS": "-mod=mod", "GOPROXY": "off", "GOSUMDB": "off", "GOTOOLCHAIN": "local",
          "CGO_ENABLED": os.environ.get("CGO_ENABLED", "")}
@@ -50,14 +50,21 @@ class Run:
         env.update({k: v for k, v in GOENV.items() if v != "" or k != "CGO_ENABLED"})
         if race:
             env["CGO_ENABLED"] = "1"
+        hdir = HARNESS
+        if REPO != "/repo":
+            hdir = self.path("harness")
+            if not os.path.isdir(hdir):
+                shutil.copytree(HARNESS, hdir)
+                gm = open(os.path.join(hdir, "go.mod")).read().replace("=> /repo", "=> " + REPO)
+                open(os.path.join(hdir, "go.mod"), "w").write(gm)
         try:
-            shutil.copyfile(os.path.join(REPO, "go.sum"), os.path.join(HARNESS, "go.sum"))
+            shutil.copyfile(os.path.join(REPO, "go.sum"), os.path.join(hdir, "go.sum"))
         except OSError as e:
             raise Infra("cannot copy go.sum: %s" % e)
         out = self.path("gv-race" if race else "gv")
         cmd = ["go", "build", "-tags", "verif"] + (["-race"] if race else []) + ["-o", out, "./cmd/gv"]
         t = time.time()
-        p = subprocess.run(cmd, cwd=HARNESS, env=env, stdout=subprocess.PIPE, stderr=subprocess.STDOUT, text=True, timeout=900)
+        p = subprocess.run(cmd, cwd=hdir, env=env, stdout=subprocess.PIPE, stderr=subprocess.STDOUT, text=True, timeout=900)
         if p.returncode != 0:
             raise Infra("harness build failed (does /repo still compile?):\n" + p.stdout[-4000:])
         log("[build] %s %.1fs" % (os.path.basename(out), time.time() - t))
@@ -258,7 +265,8 @@ def match_known(pid, signature):
 def finish(run, level, coverage, violations, assumptions, extra=None):
     """violations: [{'signature':{...}, 'what': str, 'replay': {...json...}}].
     Writes evidence, replay files, prints verdict lines, returns exit code."""
-    os.makedirs(os.path.join(ROOT, "evidence"), exist_ok=True)
+    outroot = ROOT if REPO == "/repo" else run.path("out")
+    os.makedirs(os.path.join(outroot, "evidence"), exist_ok=True)
     new, known = [], []
     seen_sig = set()
     for v in violations:
@@ -274,7 +282,7 @@ def finish(run, level, coverage, violations, assumptions, extra=None):
         print("KNOWN-FINDING: property=%s %s" % (run.id, k.get("what", v.get("what", ""))))
     rc = 0
     if new:
-        rdir = os.path.join(ROOT, "replays", run.id)
+        rdir = os.path.join(outroot, "replays", run.id)
         os.makedirs(rdir, exist_ok=True)
         printed = set()
         for n, v in enumerate(new[:20]):
@@ -295,7 +303,7 @@ def finish(run, level, coverage, violations, assumptions, extra=None):
           "known_findings_reported": len(known)}
     if extra:
         ev.update(extra)
-    with open(os.path.join(ROOT, "evidence", run.id + ".json"), "w") as f:
+    with open(os.path.join(outroot, "evidence", run.id + ".json"), "w") as f:
         json.dump(ev, f, indent=1, default=str)
     log("[%s %s seed=%s] violations=%d known=%d wall=%.1fs" % (run.id, run.tier, run.seed, len(new), len(known), ev["wall_s"]))
     return rc
